@@ -16,20 +16,30 @@ from vt.model import c15_oracle as O
 
 PID = "C15"
 LEVEL = "exploration"
-TECHNIQUE = "nonce-tagged taint tracking through generated templates + delta-debugged leak classification"
+TECHNIQUE = ("nonce-tagged taint tracking through generated templates (incl. i18n extension) + delta-debugged leak "
+             "classification + filter-result probe for filtered set blocks")
 RULE = ("typed random template IR: data strings and string literals whose every HTML metacharacter is "
         "surrounded by a unique 5-digit nonce, pushed through every built-in filter (data-controlled "
         "arguments; xmlattr also with data-controlled and nonce'd literal attribute NAMES that pass the documented "
         "key validation - metacharacters < \" ' & - as dict-display keys, data dicts, dict(**d) / dict(d) / "
         "dict(d|items) / dict(d.items()) calls, optionally through {% set %}), + ~ % *, str/Markup methods, tests, macros (positional/default/kw/varargs/kwargs), "
-        "call blocks and caller arguments, set blocks, filter blocks, loops (recursive, loop.cycle), "
+        "call blocks and caller arguments, set blocks, FILTERED set blocks ({% set x | f(args) %}), filter blocks, loops (recursive, loop.cycle), "
         "include, import (macro and variable), blocks, self.block(), extends/super, joiner, namespace; "
         "autoescape static True, select_autoescape by DictLoader template name, or {% autoescape true|flag %} "
         "regions (whole-file or per-statement layout) in an autoescape=False environment; environment "
-        "variants sandboxed/async/finalize/unoptimized. Template text is metacharacter-free; |safe, gettext "
-        "and autoescape-off regions are never generated. distinct = distinct rendered template-source sets "
-        "whose output shows at least one nonce'd metacharacter arriving in escaped form")
-LEVEL_TEXT = "held on the K generated templates only (bounded depth <= 3, 1-3 units per template)"
+        "variants sandboxed/async/finalize/unoptimized. About a third of the cases load the i18n extension: "
+        "{% trans %} blocks (explicit name=expr and implicitly referenced variables, context string, count + "
+        "{% pluralize [name] %}, trimmed/notrimmed and the ext.i18n.trimmed policy, whitespace/percent-sign bodies, "
+        "a macro call as first variable) and gettext/_/ngettext/pgettext/npgettext calls (also inside macro, loop "
+        "and caller posts) carry data in their VARIABLES, with new-style callables (keyword variables) or old-style "
+        "ones (|format(...) or % {...} written by the template), installed as null translations, as a translations "
+        "object (gettext or ugettext spelling) or as bare callables whose texts keep / repeat the placeholders and "
+        "may bring markup of their own; message, context and translation texts are template text and carry no data. "
+        "Template text is metacharacter-free; |safe and autoescape-off regions are never generated. distinct = "
+        "distinct rendered template-source sets (+ i18n configuration) whose output shows at least one nonce'd "
+        "metacharacter arriving in escaped form")
+LEVEL_TEXT = ("held on the K generated templates only (bounded depth <= 3, 1-3 units per template; i18n constructs "
+              "in about a third of them)")
 ASSUMPTIONS = [
     "values carrying markup legitimately produced by urlize/xmlattr/tojson are only passed to structure-"
     "preserving consumers (output, ~, +, indent, replace, join element, captures): cutting, re-casing or "
@@ -43,6 +53,14 @@ ASSUMPTIONS = [
     "in runtime mode every {{ }} is lexically inside an {% autoescape %} region of its own template file "
     "(imported macro bodies carry their own region); data never contains Markup objects",
     "all templates of one case share the same autoescape status (no .txt/.html mixing)",
+    "i18n: the msgid / context string of every trans block and gettext-family call is a metacharacter-free literal "
+    "and the harness-side translations return texts built from it (translation strings count as template text by "
+    "the property statement, so their own markup - '<i>..</i>' in the 'markup' variant - is legitimately raw; it is "
+    "never nonce-bracketed); data enters only through the variables, which the docs say are escaped when "
+    "autoescaping is on (new-style) or by the ordinary output escaping of the formatted plain string (old-style)",
+    "a leak through a filtered set block is attributed to the recorded finding set-block-filter:result-marked-safe "
+    "only when a harness-side wrapper around the named filter sees that mechanism (non-markup return value carrying "
+    "the datum raw, all markup inputs clean); otherwise the key is the full construct path",
 ]
 NSHARDS = {"quick": 16, "thorough": 16}
 BUDGET_S = {"quick": 14, "thorough": 540}
@@ -55,7 +73,21 @@ FLOORS = {
                            "filter.xmlattr": 15, "xmlattr_names_arrived_escaped": 8, "filter.tojson": 15, "filter.truncate": 10, "filter.wordwrap": 10,
                            "filter.format": 10, "filter.striptags": 8, "construct.cap.macro": 20,
                            "construct.cap.setblock": 20, "construct.callblock": 40, "construct.include": 15,
-                           "construct.cap.import_macro": 10, "construct.xblock": 15}},
+                           "construct.cap.import_macro": 10, "construct.xblock": 15,
+                           "construct.cap.fsetblock": 18, "construct.trans": 120, "construct.gt": 45,
+                           "i18n.newstyle": 55, "i18n.oldstyle": 45, "i18n.install.null": 30,
+                           "i18n.install.object": 30, "i18n.install.uobject": 12, "i18n.install.callables": 15,
+                           "i18n.markup": 25, "i18n.dup": 25, "i18n.trim_policy": 15,
+                           "trans.context": 45, "trans.context_singular_with_var": 22, "trans.pluralize": 40,
+                           "trans.trimmed": 25, "trans.implicit_var": 45, "trans.explicit_var": 80,
+                           "gt.gettext": 8, "gt._": 5, "gt.ngettext": 4, "gt.pgettext": 8, "gt.npgettext": 4,
+                           "i18n_vars_arrived_escaped": 240,
+                           "i18n_vars_arrived_escaped.trans.newstyle": 60,
+                           "i18n_vars_arrived_escaped.trans.oldstyle": 50,
+                           "i18n_vars_arrived_escaped.trans:context.newstyle": 35,
+                           "i18n_vars_arrived_escaped.trans:context.oldstyle": 30,
+                           "i18n_vars_arrived_escaped.call.newstyle": 30,
+                           "i18n_vars_arrived_escaped.call.oldstyle": 12}},
     "thorough": {"evaluations": 40000, "distinct": 25000,
                  "counters": {"rendered_ok": 30000, "nonces_arrived_escaped": 150000, "mode.static": 7000,
                               "mode.selector": 3500, "mode.runtime": 10000, "control_leaks_detected": 16,
@@ -64,7 +96,21 @@ FLOORS = {
                               "filter.wordwrap": 200, "filter.format": 200, "filter.striptags": 150,
                               "construct.cap.macro": 400, "construct.cap.setblock": 400,
                               "construct.callblock": 800, "construct.include": 300,
-                              "construct.cap.import_macro": 200, "construct.xblock": 300}},
+                              "construct.cap.import_macro": 200, "construct.xblock": 300,
+                              "construct.cap.fsetblock": 360, "construct.trans": 2400, "construct.gt": 900,
+                              "i18n.newstyle": 1100, "i18n.oldstyle": 900, "i18n.install.null": 600,
+                              "i18n.install.object": 600, "i18n.install.uobject": 240, "i18n.install.callables": 300,
+                              "i18n.markup": 500, "i18n.dup": 500, "i18n.trim_policy": 300,
+                              "trans.context": 900, "trans.context_singular_with_var": 440, "trans.pluralize": 800,
+                              "trans.trimmed": 500, "trans.implicit_var": 900, "trans.explicit_var": 1600,
+                              "gt.gettext": 160, "gt._": 100, "gt.ngettext": 80, "gt.pgettext": 160, "gt.npgettext": 80,
+                              "i18n_vars_arrived_escaped": 4800,
+                              "i18n_vars_arrived_escaped.trans.newstyle": 1200,
+                              "i18n_vars_arrived_escaped.trans.oldstyle": 1000,
+                              "i18n_vars_arrived_escaped.trans:context.newstyle": 700,
+                              "i18n_vars_arrived_escaped.trans:context.oldstyle": 600,
+                              "i18n_vars_arrived_escaped.call.newstyle": 600,
+                              "i18n_vars_arrived_escaped.call.oldstyle": 240}},
 }
 MAX_REDUCE_EVALS = 400
 
@@ -443,6 +489,9 @@ def gt_simplifications(node, data, target):
 
 def trans_simplifications(st, data, target):
     _, opts, args, count = st
+    for _, a in args:
+        if contains_nonce(a, "E", data, target):
+            yield ["out", a]              # the variable's expression without the trans block
     for j, (_, a) in enumerate(args):
         if not contains_nonce(a, "E", data, target):
             yield ["trans", opts, args[:j] + args[j + 1:], count]
@@ -779,11 +828,17 @@ def probe_set_block_filter(case, target):
     """Harness-side wrappers around the filters that the case's filtered set blocks name
     (env.filters entries, public API).  True iff some call returned a value WITHOUT
     __html__ (not markup: under autoescape it has to be escaped when it is output) that
-    carries a raw metacharacter of the target datum, while no markup value handed to the
-    filter carried one - i.e. the data was still escaped / plain on the way in, and the only
-    thing that made it 'safe' is the set block's marking of the filter's plain result."""
+    carries a raw metacharacter of the target datum, while the filtered value itself (the
+    captured block body: first argument that is not an Environment / EvalContext / Context)
+    did not carry one and no markup argument carried one - i.e. the data was still escaped,
+    or a plain ARGUMENT, on the way in, and the only thing that made it 'safe' is the set
+    block's marking of the filter's plain result."""
     import functools
     import inspect
+
+    from jinja2 import Environment
+    from jinja2.nodes import EvalContext
+    from jinja2.runtime import Context
 
     names = sorted({n[2] for u in case["units"] for _, n, so in IR.walk(u, "S")
                     if so != "S" and n[0] == "cap" and n[1] == "fsetblock"})
@@ -798,15 +853,24 @@ def probe_set_block_filter(case, target):
         except Exception:
             return False
 
+    def record(a, k, rv):
+        pos = [x for x in a if not isinstance(x, (Environment, EvalContext, Context))]
+        if not pos or not isinstance(pos[0], str):
+            return                      # not a captured block body (e.g. a list through |join)
+        dirty_in = raw(pos[0]) or any(hasattr(x, "__html__") and raw(x) for x in pos[1:] + list(k.values()))
+        obs.append((dirty_in, hasattr(rv, "__html__"), raw(rv)))
+
     def wrap(orig):
         @functools.wraps(orig)
         def w(*a, **k):
             rv = orig(*a, **k)
-            if inspect.isawaitable(rv):
-                obs.append(None)
-                return rv
-            dirty_in = any(hasattr(x, "__html__") and raw(x) for x in list(a) + list(k.values()))
-            obs.append((dirty_in, hasattr(rv, "__html__"), raw(rv)))
+            if inspect.isawaitable(rv):     # async variant in an async environment
+                async def fin():
+                    r = await rv
+                    record(a, k, r)
+                    return r
+                return fin()
+            record(a, k, rv)
             return rv
         return w
 
@@ -819,7 +883,7 @@ def probe_set_block_filter(case, target):
         env.get_template(main).render(**rctx)
     except Exception:
         return False
-    if not obs or any(o is None or o[0] for o in obs):
+    if not obs or any(o[0] for o in obs):
         return False
     return any((not is_markup) and is_raw for _, is_markup, is_raw in obs)
 
@@ -884,6 +948,8 @@ def analyse(ctx, case, report=True):
             got = sum(1 for n in nonces if re.search(n + r"&(?:lt|gt|#34|#39);", out))
             if got:
                 ctx.count(f"i18n_vars_arrived_escaped.{kind}.{style}", got)
+                if kind.startswith("call:"):
+                    ctx.count(f"i18n_vars_arrived_escaped.call.{style}", got)
                 ctx.count("i18n_vars_arrived_escaped", got)
     if arrived:
         ctx.dist(sorted(files.items()) + ([["i18n", sorted(i18n.items())]] if i18n else []))
